@@ -319,6 +319,13 @@ def _collect(r, res, labels, fnmap, text_lines, canaries, unit, gen_name=None):
             res['undecided'].append('%s (gen/%s.rs:%s)' % (d.get('message', '')[:200], unit, prim[0]['line_start'] if prim else '?'))
             continue
         names, site = label_for(d, labels, fnmap, text_lines, gen_name)
+        # an UNLABELLED `assert!` / callee-precondition failure inside a function body in a function that now
+        # calls library functions it did not call when the contract was written: the specifications of those dependencies
+        # were never validated with this contract, so the failure is undecided, not a violation
+        if site and site.get('new_calls') and names == site['label'].split(',') and re.search(r'assertion failed|precondition not satisfied', d.get('message', '')):
+            res['undecided'].append('body obligation of %s failed (%s) but the function now also calls %s, whose specifications were not validated with this contract'
+                                    % (site['fn'], d.get('message', '')[:60], site['new_calls']))
+            continue
         for nm in names:
             res['failed'].setdefault(nm, []).append({
                 'message': d.get('message'),
